@@ -15,7 +15,7 @@ HERE = os.path.dirname(os.path.abspath(__file__))
 PRELUDE = r'''
 verus! {
 global size_of usize == 8;
-use std::collections::HashMap;
+use std::collections::{HashMap, HashSet, BTreeMap, BTreeSet, VecDeque};
 /// proved in unit fri (same text, same contract)
 #[verifier::external_body]
 pub fn circuit_exp_by_constant<EF: FieldX>(builder: &mut CircuitBuilder<EF>, base: Target, n: usize) -> (ret: Target)
